@@ -108,7 +108,7 @@ type Conn struct {
 	NoLog bool
 	// WriteErr, when non-nil, makes every Write fail with it (nothing is accepted).
 	WriteErr error
-	out   []byte // all bytes accepted by Write
+	out      []byte // all bytes accepted by Write
 
 	// Counted decides which op kinds take part in fault indexing (nil = all).
 	Counted func(OpKind) bool
